@@ -214,6 +214,18 @@ func init() {
 	s["(*golang.org/x/time/rate.Limiter).Wait"] = func(in *Interp, fr *frame, a []Value) Value { return Iface{} }
 	s["(*golang.org/x/time/rate.Limiter).Allow"] = func(in *Interp, fr *frame, a []Value) Value { return tTrue }
 
+	// a ticker delivers exactly one tick (the loop body that waits on it runs once, then the goroutine parks)
+	s["time.NewTicker"] = func(in *Interp, fr *frame, a []Value) Value {
+		T := fr.fn.Signature.Results().At(0).Type().(*types.Pointer).Elem()
+		var cell Value = in.zero(T)
+		st := T.Underlying().(*types.Struct)
+		ci := structFieldIndex(T, "C")
+		elem := st.Field(ci).Type().Underlying().(*types.Chan).Elem()
+		cell.(Struct)[ci] = &ChanV{Cap: 1, Elem: elem, Buf: []Value{in.mkTime(in.clockNow())}}
+		return &cell
+	}
+	s["(*time.Ticker).Stop"] = func(in *Interp, fr *frame, a []Value) Value { return nil }
+	s["(*time.Ticker).Reset"] = func(in *Interp, fr *frame, a []Value) Value { return nil }
 	h["vRadiusServer"] = func(in *Interp, fr *frame, a []Value) Value {
 		in.acct().radMode = int(in.concretize(a[0].(*Term), "radius mode"))
 		return nil
